@@ -623,6 +623,6 @@ def replay(doc):
 
 
 def jobs(tier, seed):
-    n, shards = (3000, 8) if tier == "quick" else (50000, 16)
+    n, shards = (3000, 8) if tier == "quick" else (200000, 16)
     return [{"name": "pairs-%d" % k, "kind": "pairs", "n": n // shards, "seed": seed * 1000 + 200 + k,
              "shrink": 300 if tier == "quick" else 1500} for k in range(shards)]
